@@ -1,7 +1,9 @@
 (* C13 -- COLR-to-SVG conversion preserves the picture for supported paint graphs. *)
 From Coq Require Import List ZArith Bool Field.
-From Verif Require Import Model.Field Model.Affine Model.ViewBox Model.ColrToSvg
-  Proofs.Affine_facts Proofs.ViewBox_facts Proofs.ColrToSvg_facts.
+From Coq Require Import String.
+From Verif Require Import Model.Field Model.Affine Model.Color Model.Paint Model.ViewBox Model.ColrToSvg
+  Model.SvgTree Proofs.Affine_facts Proofs.ViewBox_facts Proofs.ColrToSvg_facts Proofs.SvgTree_facts
+  Proofs.SvgTree_examples.
 Import ListNotations.
 
 (* T1: font space -> viewBox undoes the placement of C01 *)
@@ -34,3 +36,61 @@ Theorem C13_linear_p3_sem :
       svg_lin_t p0 (linear_p3 p0 p1 p2) x = lin_t p0 p1 p2 x.
 Proof. exact (fun O Fth => @linear_p3_sem O Fth). Qed.
 Print Assumptions C13_linear_p3_sem.
+
+(* T4: the traversal.  For every paint graph the converter supports (any nesting of layers,
+   transform paints of all ten kinds above and below a PaintGlyph, PaintColrGlyph through the base
+   glyph records, group opacity; any depth), in any field, under any invertible font-to-viewBox
+   map V: the layers the written SVG tree paints are exactly the layers the COLR graph paints,
+   seen through V - same glyphs in the same order, each outline placed by V o (COLR placement),
+   each fill's geometry placed by V o (COLR fill placement), under the same group opacities.
+   Stated with the invariant that makes it inductive (C = user space of the enclosing <g>,
+   t = transform accumulated since the last attribute was written); the whole-glyph case is T4'. *)
+Theorem C13_traversal_refines :
+  forall (O : fops),
+    field_theory (f0 O) (f1 O) (fadd O) (fmul O) (fsub O) (fopp O) (fdiv O) (finv O) eq -> feqb_ok O ->
+    forall (V : aff O) (env : string -> option (paint O)),
+      adet V <> f0 O ->
+      forall fuel (p : paint O) (t acc C : aff O) (ops : list (F O)) (els : list (svgel O)),
+        matmul V acc = matmul (matmul C V) t ->
+        to_svg V env fuel p t = Some els ->
+        exists ls, colr_sem env fuel p acc ops = Some ls /\ svg_sem_list C ops els = map (through V) ls.
+Proof. exact (fun O Fth Eqb V env HV => @to_svg_refines O Fth Eqb V env HV). Qed.
+Print Assumptions C13_traversal_refines.
+
+Theorem C13_glyph_to_svg_refines :
+  forall (O : fops),
+    field_theory (f0 O) (f1 O) (fadd O) (fmul O) (fsub O) (fopp O) (fdiv O) (finv O) eq -> feqb_ok O ->
+    forall (V : aff O) (env : string -> option (paint O)),
+      adet V <> f0 O ->
+      forall fuel (p : paint O) (els : list (svgel O)),
+        to_svg V env fuel p aid = Some els ->
+        exists ls, colr_sem env fuel p aid [] = Some ls /\ svg_sem_list aid [] els = map (through V) ls.
+Proof. exact (fun O Fth Eqb V env HV => @glyph_to_svg_refines O Fth Eqb V env HV). Qed.
+Print Assumptions C13_glyph_to_svg_refines.
+
+(* the answer does not depend on the fuel chosen, once there is one *)
+Theorem C13_to_svg_fuel_mono :
+  forall (O : fops) (V : aff O) (env : string -> option (paint O)) fuel (p : paint O) (t : aff O) els,
+    to_svg V env fuel p t = Some els -> to_svg V env (S fuel) p t = Some els.
+Proof. exact (fun O V env => @to_svg_fuel_mono O V env). Qed.
+Print Assumptions C13_to_svg_fuel_mono.
+
+(* T5: what "fill geometry placed by fm" means for a linear gradient as it is written (mapped
+   points, then P3): same colour parameter at the image of every point *)
+Theorem C13_linear_fill_sem :
+  forall (O : fops),
+    field_theory (f0 O) (f1 O) (fadd O) (fmul O) (fsub O) (fopp O) (fdiv O) (finv O) eq ->
+    forall (fm : aff O) (p0 p1 p2 z : pt O),
+      adet fm <> f0 O ->
+      det2 (fsub O (px p1) (px p0)) (fsub O (py p1) (py p0)) (fsub O (px p2) (px p0)) (fsub O (py p2) (py p0)) <> f0 O ->
+      let q0 := map_point fm p0 in let q1 := map_point fm p1 in let q2 := map_point fm p2 in
+      let n := perp (vsub q2 q0) in
+      dot n n <> f0 O -> dot (vsub q1 q0) n <> f0 O ->
+      svg_lin_t q0 (linear_p3 q0 q1 q2) (map_point fm z) = lin_t p0 p1 p2 z.
+Proof. exact (fun O Fth => @linear_fill_sem O Fth). Qed.
+Print Assumptions C13_linear_fill_sem.
+
+(* the hypotheses are met by a graph with every supported construct (evaluated) *)
+Theorem C13_traversal_example : ex_layers = Some 4%nat.
+Proof. exact traversal_example. Qed.
+Print Assumptions C13_traversal_example.
